@@ -25,7 +25,7 @@ import jaxtyping
 from jaxtyping import install_import_hook
 from jaxtyping._import_hook import _JaxtypingFinder
 from vf import obs
-from vf.core import Violation
+from vf.core import HarnessError, Violation
 
 ID = "C11"
 LEVEL = "exploration"
@@ -55,11 +55,15 @@ FOREST = {
     "foobar2/__init__.py": "MOD = __name__\ndef f(x: int):\n    return x\ndef outer(x):\n    def inner(y: int):\n        return y\n    return inner(x)\n",
     "foobar2/foo.py": "MOD = __name__\ndef f(x: int):\n    return x\ndef outer(x):\n    def inner(y: int):\n        return y\n    return inner(x)\n",
 }
+# modules that do not exist at first: the program tries to import them (optional dependency, plugin), they appear later
+LATE = {"foo.late": "foo/late.py", "latemod": "latemod.py"}
+LATE_SRC = "MOD = __name__\ndef f(x: int):\n    return x\ndef outer(x):\n    def inner(y: int):\n        return y\n    return inner(x)\n"
 MODULES = ["foo", "foo.bar", "foo.bar.qux", "foo.barbaz", "foobar", "foo_bar", "fo", "foobar2", "foobar2.foo"]
+OBS_MODULES = sorted(LATE) + MODULES
 # static module-level imports (beyond parents)
 IMPORTS = {"foo": ["foo.bar"], "foo.bar.qux": ["foobar"], "foo_bar": ["foo.bar"]}
-HOOK_NAMES = ["foo", "foo.bar", "foo.bar.qux", "foo.barbaz", "foobar", "foo_bar", "fo", "foobar2", "foo.ba", "foob", "bar", "foobar2.foo", "foo.bar.q"]
-TOP = ["foo", "foobar", "foo_bar", "fo", "foobar2"]
+HOOK_NAMES = ["latemod", "foo.late", "foo", "foo.bar", "foo.bar.qux", "foo.barbaz", "foobar", "foo_bar", "fo", "foobar2", "foo.ba", "foob", "bar", "foobar2.foo", "foo.bar.q"]
+TOP = ["foo", "foobar", "foo_bar", "fo", "foobar2", "latemod"]
 
 _state = {}
 
@@ -98,6 +102,11 @@ def setup_forest():
 
 
 def purge():
+    for rel in LATE.values():
+        try:
+            os.remove(os.path.join(_state["dir"], rel))
+        except OSError:
+            pass
     for name in list(sys.modules):
         if name.split(".")[0] in TOP:
             del sys.modules[name]
@@ -150,7 +159,7 @@ def observe():
     """module -> None | 'a' | 'b' | 'none' for every forest module currently in sys.modules."""
     spy = _state["spy"]
     out = {}
-    for name in MODULES:
+    for name in OBS_MODULES:
         mod = sys.modules.get(name)
         if mod is None:
             continue
@@ -253,6 +262,30 @@ def check_history(ctx, ops):
                 except Exception as e:  # noqa: BLE001
                     raise Violation("operation-raised", {"ops": ops}, f"op #{i} import {op[1]} raised {type(e).__name__}: {e}; hooks={model.hooks}; history={ops[:i + 1]}")
                 model.do_import(op[1])
+            elif kind == "create":
+                path = os.path.join(_state["dir"], LATE[op[1]])
+                if not os.path.exists(path):
+                    with open(path, "w") as f:
+                        f.write(LATE_SRC)
+                    importlib.invalidate_caches()
+                    model.flags.add("module-appears-later")
+            elif kind == "try-import":
+                exists = os.path.exists(os.path.join(_state["dir"], LATE[op[1]]))
+                try:
+                    importlib.import_module(op[1])
+                    failed = None
+                except ModuleNotFoundError as e:
+                    failed = e
+                except Exception as e:  # noqa: BLE001
+                    raise Violation("operation-raised", {"ops": ops}, f"op #{i} import {op[1]} raised {type(e).__name__}: {e}; history={ops[:i + 1]}")
+                if exists and failed is not None and op[1] not in sys.modules:
+                    raise Violation("operation-raised", {"ops": ops}, f"op #{i}: {op[1]} exists by now but importing it raised {failed!r}; hooks={model.hooks}; history={ops[:i + 1]}")
+                if not exists and failed is None:
+                    raise HarnessError(f"{op[1]} imported although its file does not exist")
+                if exists:
+                    model.do_import(op[1])
+                elif "." in op[1]:
+                    model.do_import(op[1].rsplit(".", 1)[0])  # the parent package was imported on the way
             elif kind == "lazy":
                 try:
                     if "foo.barbaz" not in sys.modules:
@@ -298,7 +331,7 @@ def check_history(ctx, ops):
                 got = observe()
             finally:
                 jaxtyping.config.update("jaxtyping_disable", was_disabled)
-            exp = {m: model.loaded[m] for m in MODULES if m in model.loaded}
+            exp = {m: model.loaded[m] for m in OBS_MODULES if m in model.loaded}
             if set(got) != set(exp):
                 raise Violation("loaded-set", {"ops": ops}, f"after op #{i} {op}: loaded forest modules {sorted(got)} vs model {sorted(exp)}")
             for m in exp:
@@ -321,6 +354,9 @@ op_st = st.one_of(
     st.tuples(st.just("uninstall"), st.integers(0, 5)),
     st.tuples(st.just("install-same"), st.integers(0, 3), st.sampled_from(["a", "b", "none"]), st.sampled_from(["list", "with", "handle"])),
     st.tuples(st.just("lazy")),
+    st.tuples(st.just("try-import"), st.sampled_from(sorted(LATE))),
+    st.tuples(st.just("create"), st.sampled_from(sorted(LATE))),
+    st.tuples(st.just("try-import"), st.sampled_from(sorted(LATE))),
     st.tuples(st.just("disable"), st.sampled_from([True, False, True])),
     st.tuples(st.just("pytest"), names_st, st.sampled_from(["a", "b"]), st.booleans()),
 )
